@@ -409,6 +409,13 @@ variant("envid-assign-no-shadow",
   ("conn.go", """			value, err := decodeXtext(value)
 			if err != nil || value == "" || !isPrintableASCII(value) {""", """			value, err = decodeXtext(value)
 			if err != nil || value == "" || !isPrintableASCII(value) {"""))
+variant("linelimit-switch-form",
+  ("lengthlimit_reader.go", """		if chr == '\\n' {
+			r.curLineLength = 0
+		}""", """		switch chr {
+		case '\\n':
+			r.curLineLength = 0
+		}"""))
 if sys.argv[1:] == ['--export']:
     out = [{"id": "benign-" + n, "edits": [{"file": f, "old": o, "new": w} for f, o, w in V[n]]} for n in V]
     json.dump(out, open('/verif/liveness/benign.json', 'w'), indent=1)
